@@ -129,6 +129,8 @@ class QFDriver:
         self.obj = self.K(quotient=case["q"], auto_expand=case["auto"], hash_function=self.hf)
         if case.get("mlf") is not None:
             self.obj.max_load_factor = case["mlf"]
+        if case.get("mlf_low") is not None and not case["auto"] and not any(op[0] == "toggle_auto" for op in case["ops"]):
+            self.obj.max_load_factor = case["mlf_low"]
         self.model = set()
         self.feats = set()
         self.universe = sorted({(t << 24) | r for t in self.tops for r in self.lows} | {self.hf_eff(k, 0) for k in self.pool})
@@ -407,7 +409,9 @@ def case_strategy(tier, max_ops=60):
         ]
         return {
             "q": q, "auto": draw(st.booleans()), "dense": dense,
+            # (for a filter that starts non-expanding also low maximum load factors: they only matter to an explicit resize)
             "mlf": draw(st.sampled_from([None, None, None, 0.5, 0.95, 1.0, 0.25, 1.5])),
+            "mlf_low": draw(st.sampled_from([None, None, 0.1, 0.05])),
             "hash": draw(st.sampled_from(["default", "default", "sha", "falsy_sha", "edges"])),
             "tops": tops, "lows": lows, "pool": draw(gen.pool_st(2, 6)),
             "ops": [list(o) for o in draw(st.lists(st.one_of(*ops), min_size=4, max_size=max_ops))],
